@@ -868,6 +868,9 @@ class TypeQualifier(TypeQualifierBase, metaclass=_TypeQualifier):
             # check that the initial value can be converted to the declared type,
             # the same way an object constructed outside a synthesizable context does
             type(self)._Wrapped(_decay(value))
+        elif isinstance(value, (list, tuple)):
+            # the elements of an array are checked the same way
+            type(self)._Wrapped([_decay(elem) for elem in value])
 
         return intr_op._IntrinsicDeclaration(self, value)
 
@@ -1418,6 +1421,8 @@ class Signal(TypeQualifier):
         if is_primitive(_decay(value)):
             # same check as in TypeQualifier._init_replacement
             type(self)._Wrapped(_decay(value))
+        elif isinstance(value, (list, tuple)):
+            type(self)._Wrapped([_decay(elem) for elem in value])
 
         return intr_op._IntrinsicDeclaration(self, value, delayed_init)
 
